@@ -543,8 +543,7 @@ class ModuleInliner:
     def run(self, discovered: bool = False) -> ast.Module:
         if not discovered:
             self.discover()
-        if self.constants:
-            self._fold_constants()
+        self._fold_constants()
         for _round in range(3):  # helpers calling helpers
             before = sum(h.inlined_sites for h in self.helpers.values())
             for st in self.tree.body:
@@ -678,6 +677,27 @@ def _fold_constants(self) -> None:
         def visit_For(self, f: ast.For):
             self.generic_visit(f)
             # for x in (<a few literals>): <simple body>  ->  unrolled
+            # for a, b in zip((<literals>), xs): <simple body>  ->  unrolled with a := literal, b := xs[i]
+            if isinstance(f.iter, ast.Call) and isinstance(f.iter.func, ast.Name) and f.iter.func.id == "zip" and not f.iter.keywords and not f.orelse \
+                    and isinstance(f.target, ast.Tuple) and len(f.target.elts) == len(f.iter.args) and all(isinstance(t, ast.Name) for t in f.target.elts) \
+                    and any(isinstance(a, (ast.Tuple, ast.List)) and all(isinstance(x, ast.Constant) for x in a.elts) for a in f.iter.args) \
+                    and all(isinstance(a, ast.Name) or (isinstance(a, (ast.Tuple, ast.List)) and all(isinstance(x, ast.Constant) for x in a.elts)) for a in f.iter.args):
+                lits = [a for a in f.iter.args if isinstance(a, (ast.Tuple, ast.List))]
+                n = min(len(a.elts) for a in lits)
+                tnames = [t.id for t in f.target.elts]
+                stored = {x.id for b in f.body for x in ast.walk(b) if isinstance(x, ast.Name) and isinstance(x.ctx, ast.Store)}
+                if 0 < n <= 8 and len({len(a.elts) for a in lits}) == 1 and not (stored & set(tnames)) \
+                        and not any(isinstance(x, (ast.Break, ast.Continue)) for b in f.body for x in ast.walk(b)):
+                    out = []
+                    for i in range(n):
+                        sub = {}
+                        for tn, a in zip(tnames, f.iter.args):
+                            sub[tn] = a.elts[i] if isinstance(a, (ast.Tuple, ast.List)) else ast.Subscript(value=ast.Name(id=a.id, ctx=ast.Load()), slice=ast.Constant(value=i), ctx=ast.Load())
+                        ren = _Renamer(sub, {})
+                        out.extend(ast.copy_location(ren.visit(copy.deepcopy(b)), b) for b in f.body)
+                    for o_ in out:
+                        ast.fix_missing_locations(o_)
+                    return out
             if isinstance(f.iter, (ast.Tuple, ast.List)) and 0 < len(f.iter.elts) <= 8 and isinstance(f.target, ast.Name) and not f.orelse \
                     and all(isinstance(x, ast.Constant) for x in f.iter.elts) \
                     and not any(isinstance(x, (ast.Break, ast.Continue)) or (isinstance(x, ast.Name) and x.id == f.target.id and isinstance(x.ctx, ast.Store)) for b in f.body for x in ast.walk(b)):
